@@ -232,6 +232,9 @@ class Ctx:
         os.makedirs(evdir, exist_ok=True)
         with open(os.path.join(evdir, f'{self.prop}.json'), 'w') as f:
             json.dump(ev, f, indent=1, default=repr)
+        if rc == 0 and os.environ.get('VERIF_KEEP_CASES') != '1':
+            import shutil
+            shutil.rmtree(coqrun.case_dir(self.prop), ignore_errors=True)
         print(f'{self.prop} {self.tier}: theorems {self.discharged}/{self.obligations}, '
               f'correspondence cases {sum(c["cases"] for c in self.corr)}, '
               f'evaluations {self.evaluations} ({len(self._distinct)} distinct non-trivial), '
